@@ -27,7 +27,7 @@ REACH_TEXT = {'ovl-flag': ('wave_sim.py', 'ovl = 1'), 'abuf-cpu': ('wave_sim.py'
 
 def plan(tier, seed):
     q = tier == 'quick'
-    return [{'n': 60 if q else 1000} for _ in range(16)]
+    return [{'n': 250 if q else 6000} for _ in range(16)]
 
 
 def conclude(agg):
